@@ -22,6 +22,7 @@ int fi_calls(void);
 int fi_live_blocks(void);
 size_t fi_live_bytes(void);
 int fi_live_fds(void);
+int fi_live_files(void);     /* FILE* handles opened through fopen and not yet fclosed */
 /* wait until the live counts stop changing (other threads releasing) */
 void fi_settle(void);
 #endif
